@@ -289,6 +289,8 @@ def _adjacent_ok(a, b, ext):
     """May node b directly follow node a without changing tokenisation?"""
     if a[0] == 'star' and b[0] == 'star':
         return False
+    if a[0] == 'sep' and b[0] == 'sep':
+        return False
     if ext and b[0] == 'lit' and b[1] == '(' and not b[2]:
         # a raw '(' after ? * + @ ! would open a group
         if a[0] in ('star', 'q'):
@@ -298,13 +300,14 @@ def _adjacent_ok(a, b, ext):
     return True
 
 
-def gen(budget, lv, ext=True, depth=1, max_alts=2, kinds='?*+@!', empty_alt=True, exact=True):
+def gen(budget, lv, ext=True, depth=1, max_alts=2, kinds='?*+@!', empty_alt=True, exact=True, inner=None):
     """Yield every pattern (tuple of nodes) whose token cost is exactly `budget` (each leaf and each group costs 1).
 
     Alternatives of a group may be empty (cost 0) when empty_alt.  No two adjacent star nodes; no raw '(' after a
     group-opening character.
     """
     memo = {}
+    top_depth = depth
 
     def seqs(b, d):
         key = (b, d)
@@ -317,7 +320,7 @@ def gen(budget, lv, ext=True, depth=1, max_alts=2, kinds='?*+@!', empty_alt=True
         if b == 0:
             yield ()
             return
-        heads = [(1, x) for x in lv]
+        heads = [(1, x) for x in (lv if d == top_depth or inner is None else inner)]
         if ext and d > 0:
             for kind in kinds:
                 for used in range(0, b):
